@@ -113,7 +113,10 @@ def run(ctx):
            ops.values_equal(it, flag, S.NO_DATA_SET) if not follows else ops.neg(ops.values_equal(it, flag, S.NO_DATA_SET)))
         ob('setter:keeps-the-data-set', m.fields.get('_data_set') is v)
         ob('setter:command-field-unchanged', ops.values_equal(it, it.getattr(cs, 'CommandField'), S.COMMAND_FIELD[K]))
-        # ---- set_length
+        # ---- set_length, from whatever an earlier send of the same object left in the group length
+        gl_el = it.dict_get(cs.fields['_elems'], S.GROUP_LENGTH_TAG, None)
+        if gl_el is not None and p.branch(p.fresh('sent_before', smt.Bool)):
+            gl_el.fields['value'] = p.fresh_int('earlier_group_length')
         before = {k: e.fields.get('value') for k, e in elems_of(m)}
         try:
             it.call(it.getattr(m, 'set_length'), [], {})
